@@ -121,7 +121,7 @@ def scrub(rep, f, c, rule):
                 if 'switch' in t and t.get('sty') == 'bool':
                     conds.append(Resolver(b).operand(t['switch']))
             has_mask = any(e[0] == 'bin' and e[1] in ('Eq', 'Ne') and e[2][0] == 'bin' and e[2][1] == 'BitAnd' and is_c(e[2][3], 0xC0) and is_c(e[3], 0x80) for e in conds)
-            lt_len = any(e[0] == 'bin' and e[1] == 'Lt' and e[3] == ('len', strip_ref(bytes_e)) for e in conds) or (walked is not None and walked[0] == 'from')
+            lt_len = any(e[0] == 'bin' and e[1] == 'Lt' and e[3] == ('len', strip_ref(bytes_e)) and e[2][0] != 'bin' for e in conds)      # `i < len`, not `i + k < len`: the last byte is scrubbed too or (walked is not None and walked[0] == 'from')
 
             def min_bound(e):
                 """e == min(len(bytes), x + K) — as a call of cmp::min or written as a branch -> K"""
